@@ -480,12 +480,15 @@ struct IRange {
 // nothing is required then.  Otherwise the laws hold as they stand; `r` is the integer the returned value stands for (resultZ):
 // e.g. an argument in (-1,0) truncated upward to an unsigned type must give 0 = floor+1, and r = -1 means that the code
 // returned the largest value of the type
-static std::string truncLaws(int style, int rstyle, const IRange& ir, const mpq_class& x, const mpq_class& eps, const mpz_class& r, bool& unrep) {
+static std::string truncLaws(int style, int rstyle, const IRange& ir, const mpq_class& x, const mpq_class& eps, const mpz_class& r, const mpz_class& raw, bool& unrep, bool& byGuard) {
   const bool uns = ir.uns;
   mpz_class l = floorQ(x);
   unrep = false;
-  if (uns && eqDoc(style, x, 0, eps))  // unsigned target: an argument equal to 0 within epsilon gives 0
-    return r == 0 ? "" : "unsigned target: argument equal to 0 within epsilon did not give 0";
+  byGuard = false;
+  if (uns && eqDoc(style, x, 0, eps)) {  // unsigned target: an argument equal to 0 within epsilon gives 0 (the returned value itself)
+    byGuard = true;
+    return raw == 0 ? "" : "unsigned target: argument equal to 0 within epsilon did not give 0";
+  }
   int dir = rstyle;
   if (rstyle == 0) dir = x > 0 ? 2 : 3;
   if (rstyle == 1) dir = x > 0 ? 3 : 2;
@@ -614,12 +617,12 @@ template <class T, class I> Result execRT(bool isRound, int style, int rstyle, c
   I r = callRTdyn<T, I>(isRound, style, rstyle, false, val, eps, ovl);
   res.impl = std::to_string(r);
   mpz_class R = resultZ<I>(r, X);
-  bool unrep = false;
+  bool unrep = false, byGuard = false;
   const IRange ir = rangeOfI<I>();
-  std::string l = isRound ? roundLaws(style, rstyle, X, E, R) : truncLaws(style, rstyle, ir, X, E, R, unrep);
+  std::string l = isRound ? roundLaws(style, rstyle, X, E, R) : truncLaws(style, rstyle, ir, X, E, R, mpz_class(std::to_string(r)), unrep, byGuard);
   if (!l.empty()) res.oracle = "FAIL " + l;
   else if (!ovl.empty()) res.oracle = "FAIL " + ovl;
-  else if (unrep || !ir.has(R)) res.oracle = "ok trivial";  // the documented integer is not a value of I
+  else if (unrep || (!ir.has(R) && !byGuard)) res.oracle = "ok trivial";  // the documented integer is not a value of I
   // trunc, unsigned target, documented result -1: what the code returns there is not behaviour the property talks about; it is
   // not compared with the model either (the driver evaluates the same predicate and prints `unrep`)
   if (unrep && l.empty()) res.impl = "unrep";
@@ -848,18 +851,19 @@ template <class T> std::string froundLaws(int style, int rstyle, const mpq_class
   if (r != expect) return tie ? "tie within epsilon not resolved in the documented direction" : "result is not the nearest integer";
   return "";
 }
-template <class T> std::string ftruncLaws(int style, int rstyle, const IRange& ir, const mpq_class& x, const mpq_class& eps, const mpz_class& r, bool& unrep) {
+template <class T> std::string ftruncLaws(int style, int rstyle, const IRange& ir, const mpq_class& x, const mpq_class& eps, const mpz_class& r, const mpz_class& raw, bool& unrep, bool& byGuard) {
   const bool uns = ir.uns;
   mpz_class l = floorQ(x);
   unrep = false;
+  byGuard = false;
   bool maybeZero = false;   // unsigned target and it is open whether the argument is 0 within epsilon
   if (uns) {
     int z = eqSlack<T>(style, x, 0, eps);
-    if (z == 1) return r == 0 ? "" : "unsigned target: argument equal to 0 within epsilon did not give 0";
+    if (z == 1) { byGuard = true; return raw == 0 ? "" : "unsigned target: argument equal to 0 within epsilon did not give 0"; }
     maybeZero = z < 0;
   }
   // integer arguments (all values from 2^(digits-1) on) come back unchanged; for the others both neighbours are values of T
-  if (mpq_class(l) == x) return maybeZero && r == 0 ? "" : r == l ? "" : "integer argument not returned unchanged";
+  if (mpq_class(l) == x) return maybeZero && raw == 0 ? "" : r == l ? "" : "integer argument not returned unchanged";
   int eqL = eqSlack<T>(style, mpq_class(l), x, eps), eqU = eqSlack<T>(style, mpq_class(l + 1), x, eps);
   int dir = rstyle;
   if (rstyle == 0) dir = x > 0 ? 2 : 3;
@@ -926,11 +930,11 @@ template <class T, class I> Result execFRT(bool isRound, int style, int rstyle, 
   I r = callRTdyn<T, I>(isRound, style, rstyle, ea.dflt, val, eps, ovl);
   res.impl = std::to_string(r);
   mpz_class R = resultZ<I>(r, X);
-  bool unrep = false;
-  std::string l = isRound ? froundLaws<T>(style, rstyle, X, E, R) : ftruncLaws<T>(style, rstyle, ir, X, E, R, unrep);
+  bool unrep = false, byGuard = false;
+  std::string l = isRound ? froundLaws<T>(style, rstyle, X, E, R) : ftruncLaws<T>(style, rstyle, ir, X, E, R, mpz_class(std::to_string(r)), unrep, byGuard);
   if (!l.empty()) res.oracle = "FAIL " + l;
   else if (!ovl.empty()) res.oracle = "FAIL " + ovl;
-  else if (unrep || !ir.has(R)) res.oracle = "ok trivial";
+  else if (unrep || (!ir.has(R) && !byGuard)) res.oracle = "ok trivial";
   if (!isRound && l.empty() && !truncDocFitsT<T>(style, rstyle, ir, X, val, eps)) {
     res.impl = "unrep";            // the documented result is not a value of I (see execRT)
     if (res.oracle == "ok") res.oracle = "ok trivial";
@@ -1061,10 +1065,10 @@ template <class Fm> std::string mfRoundDocF(int style, int rstyle, double v, dou
 // uns: unsigned target.  unrep: the documented result is -1 (see truncLaws), or the largest value M of the target type is
 // not a finite number of the format (mFinite = false: the code's T(M) is infinite; 240 < 255 in the format <4,3>) —
 // nothing is required then
-template <class Fm> std::string mfTruncDocF(int style, int rstyle, bool uns, bool mFinite, double v, double eps, double t, bool& unrep) {
+template <class Fm> std::string mfTruncDocF(int style, int rstyle, bool uns, bool mFinite, double v, double eps, double t, double raw, bool& unrep) {
   double l = std::floor(v);
   unrep = false;
-  if (uns && mfEqDocF<Fm>(style, v, 0, eps)) return t == 0 ? "" : "unsigned target: argument equal to 0 within epsilon did not give 0";
+  if (uns && mfEqDocF<Fm>(style, v, 0, eps)) return raw == 0 ? "" : "unsigned target: argument equal to 0 within epsilon did not give 0";
   bool eqL = mfEqDocF<Fm>(style, l, v, eps), eqU = mfEqDocF<Fm>(style, l + 1, v, eps);
   int dir = rstyle;
   if (rstyle == 0) dir = v > 0 ? 2 : 3;
@@ -1099,7 +1103,7 @@ template <class M, class I> Result execMfrT(int style, int rstyle, bool dflt, M 
   bool unrep = false;
   std::string l = mfRoundDocF<Fm>(style, rstyle, v.v, eps.v, asZ(r));
   if (l.empty()) {
-    l = mfTruncDocF<Fm>(style, rstyle, uns, std::isfinite(M(std::numeric_limits<I>::max()).v), v.v, eps.v, asZ(t), unrep);
+    l = mfTruncDocF<Fm>(style, rstyle, uns, std::isfinite(M(std::numeric_limits<I>::max()).v), v.v, eps.v, asZ(t), (double)t, unrep);
     if (!l.empty()) l = "trunc: " + l;
   } else l = "round: " + l;
   res.impl = "round=" + std::to_string(r) + " trunc=" + (unrep && l.empty() ? std::string("unrep") : std::to_string(t));
